@@ -38,9 +38,12 @@ IMPLICIT_RAISES = {
                   ("UnicodeDecodeError", "json.load decodes the bytes it read (detect_encoding + decode)")],
     "json5.load": [("RecursionError", "pure-Python recursive descent, about 20 frames per nesting level ('[' x 62)")],
     "plistlib.load": [("IndexError", "_PlistParser.end_key/add_object read self.stack[-1]; a <key> or value outside any container leaves the stack empty"),
-                      ("AttributeError", "_date_from_string calls .groupdict() on the result of a regex match that is None for a malformed <date>")],
+                      ("AttributeError", "_date_from_string calls .groupdict() on the result of a regex match that is None for a malformed <date>"),
+                      ("TypeError", "_date_from_string calls datetime.datetime(*fields) with fewer than three fields for a shortened <date>2020-01Z</date>")],
     "xml.etree.ElementTree.parse": [],
-    "yaml.load_all": [],
+    "yaml.load_all": [("IndexError", "SafeConstructor.construct_yaml_int / construct_yaml_float read value[0] of an explicitly tagged scalar that is empty (`count: !!int`)"),
+                      ("KeyError", "construct_yaml_bool looks the scalar up in bool_values (`flag: !!bool tru`)"),
+                      ("AttributeError", "construct_yaml_timestamp calls .groupdict() on a regex match that is None (`when: !!timestamp 2001-12-`)")],
 }
 # Implicit raises belong to the parsing *engine*, not to the entry point that happens to drive it: every library module that
 # creates a pyexpat parser (ParserCreate) hands the document's own encoding declaration to pyexpat.  Which entries do is read
